@@ -6,7 +6,9 @@ from debian_inspector import copyright as cr
 
 ID = 'C10'
 LEVEL = 'proof'
-THEOREMS = [('DebInspector.Thm.C10', ['Props.C10.numberFrom_shift', 'Props.C10.linesFromText_shift'])]
+THEOREMS = [('DebInspector.Thm.C10', ['Props.C10.numberFrom_shift', 'Props.C10.linesFromText_shift']),
+            ('DebInspector.Thm.C10S', ['Props.C10S.shift_sound', 'Props.C10S.shift_clause', 'Props.C10S.go_shift', 'Props.C10S.fromFieldsGroups_shift',
+                                       'Props.C10S.mergeRun_shift', 'Props.C10S.foldLoop_shift'])]
 TRUSTED = [
     'Lean 4.33.0 kernel',
     'reading of the property as Props.C10.holdsOn (range exists, inside the file, first/last line hold content, words of the value occur in the range, ranges disjoint and increasing, shift by k)',
@@ -16,12 +18,13 @@ TRUSTED = [
 ASSUMPTIONS = ['texts are str objects; words are white-space separated tokens, dot-only lines carry none']
 RULE = ('C05/C07 texts plus recovery-path families at random offsets: value-less declaration + blank lines + continuation; runs of junk lines anywhere; '
         'empty License: followed by free text with >= 3 paragraphs; k in {0,1,3}. non-trivial = some field has a non-empty value')
-TECHNIQUE = ('executable range specification evaluated on every implementation observation + correspondence with the hand model of the pipeline; '
-             'Lean 4 theorem for the line-number shift of the source lines')
-LEVEL_TEXT = ('Proved in Lean 4: prepending k blank lines to a text shifts the number of every source line by exactly k (linesFromText_shift), the fact behind the '
-              'shift clause. The range clauses (existence, bounds, content on first/last line, word inclusion, disjoint and increasing within and across paragraphs, '
-              'exact shift of the whole observation) are decided by the executable specification on every implementation observation and by correspondence with the '
-              'hand model including the merge and fold recovery paths; they are not yet theorems.')
+TECHNIQUE = ('Lean 4 theorem Props.C10S.shift_sound (the shift clause, for every text and every k) + executable range specification evaluated on every implementation observation '
+             '+ correspondence with the hand model of the pipeline')
+LEVEL_TEXT = ('Props.C10S.shift_sound / shift_clause: for every text and every k, the model of the copyright object of the text with k blank lines on top is the object of the text with every line range moved by exactly k and nothing else changed '
+              '(go_shift: the line-tracking loop does not look at line numbers; fromFieldsGroups_shift: neither do from_fields with its skipped-blank-lines offset, the merge of unknown paragraphs with its minimum / maximum ranges (mergeRun_shift) '
+              'nor the fold into an empty license (foldLoop_shift); linesFromText_shift: the source lines are renumbered by k). '
+              'The other range clauses (a range for every field with a value, bounds, content on the first and last line, word inclusion, disjoint and increasing within and across paragraphs) are decided by the executable specification '
+              'on every implementation observation and by correspondence with the hand model including the merge and fold recovery paths; they are not yet theorems.')
 LEVEL_NOTE = ('Trusted: Lean kernel; axioms propext, Classical.choice, Quot.sound only for the registered theorems; the range clauses rest on specification evaluation + correspondence.')
 
 
